@@ -367,6 +367,26 @@ def gen_valid_cases(rng, n_quad, n_noisy):
     return cases
 
 
+def support_wall_cases():
+    """Deterministic members of the stubbed stream for the support clause of the noisy class: the noise pinned to 0 (scalar and
+    (0, 0) interval), `a` and `b` free, and an optimiser that proposes -- and reports the code's own objective for -- a support whose lower
+    end lies above an interior observation, whose upper end lies below one, or both.  The documented objective is +inf there (an
+    uncensored observation has probability 0), so fit may not return such a support."""
+    out = []
+    samples = [([0.1, 0.35, 0.4, 0.62, 0.8, 0.95, 0.5, 0.55], "float64"),
+               ([float(np.float32(v)) for v in (-3.25, -1.5, -0.75, 0.0, 0.5, 1.25, 2.0)], "float32")]
+    for form in (["f", F.hx(0.0)], ["i", F.hx(0.0), F.hx(0.0)]):
+        for ys, dtype in samples:
+            for cv in (True, False):
+                for u in ([0.6, 0.9], [0.05, 0.35], [0.55, 0.7]):
+                    cons = {"o": form, "c": ["f", 2 if cv else 3], "convex": ["s", cv]}
+                    case = F.make_case("noisy", ys, dtype, -INF, INF, cons)
+                    fr = F.free_of(case)        # (a, b, and o when it is given as the interval (0, 0): one coordinate each, in this order)
+                    nb = sum(1 for k in ("a", "b", "c", "o") if fr[k])
+                    out.append((case, [dict(fun="true", u=(list(u) + [0.5] * nb)[:nb])]))
+    return out
+
+
 def run(seed, tier, replay=None):
     import multiprocessing
     rep = C.Report("C11", seed, tier)
@@ -398,6 +418,10 @@ def run(seed, tier, replay=None):
         cases = gen_valid_cases(rng, n_quad, n_noisy)
         tasks = [dict(case=c, mode="stub", policy=gen_policy(rng, c), n_theta=2, seed=i, gen_seed=i)
                  for i, c in enumerate(cases)]
+        for c, pol in support_wall_cases():
+            rep.count("stratum=noisy_noise_pinned_to_0:optimiser_proposes_a_support_excluding_an_observation")
+            cases.append(c)
+            tasks.append(dict(case=c, mode="stub", policy=pol, n_theta=2, seed=len(tasks), gen_seed=len(tasks)))
         # variants for the invariance clauses (quad: most; noisy: a share, they are expensive)
         variants = []
         for i, t in enumerate(tasks):
